@@ -140,6 +140,8 @@ type FnEnc struct {
 	unmodelled map[string]bool
 	relevant   map[string]bool
 	waived        []string
+	theoryEnd     int
+	theoryStart   int
 	lastFreshMods map[string]bool
 	lastFullMods  map[string]bool
 	lastTargets   map[string][]ssa.Value
@@ -174,7 +176,13 @@ func (f *FnEnc) def(prefix, srt, term string) string {
 		// them uninterpreted constants so that the solver's arithmetic normalisation does not
 		// change the shape of index terms
 		f.emit("(declare-fun %s () %s)", n, srt)
-		f.emit("(assert (= %s %s))", n, term)
+		if srt == "Int" {
+			// two inequalities instead of an equation: the solver's equation-solving preprocessor
+			// would otherwise substitute the sum back into index terms
+			f.emit("(assert (and (<= %s %s) (>= %s %s)))", n, term, n, term)
+		} else {
+			f.emit("(assert (= %s %s))", n, term)
+		}
 		return n
 	}
 	f.emit("(define-fun %s () %s %s)", n, srt, term)
@@ -520,9 +528,12 @@ func (f *FnEnc) typeFacts(t types.Type, v string) string {
 			lo, hi := intRange(u)
 			return fmt.Sprintf("(and (<= %s %s) (<= %s %s))", lo, v, v, hi)
 		}
+		if u.Info()&types.IsString != 0 {
+			return fmt.Sprintf("(<= (blen %s) 281474976710656)", v)
+		}
 	case *types.Slice:
 		if isByte(u.Elem()) {
-			return fmt.Sprintf("(=> (bs.nil %s) (= (bs.val %s) eps))", v, v)
+			return fmt.Sprintf("(and (=> (bs.nil %s) (= (bs.val %s) eps)) (<= (blen (bs.val %s)) 281474976710656))", v, v, v)
 		}
 		return fmt.Sprintf("(and (wfSlice %s) (<= (sl.arr %s) %s))", v, v, f.comp("W"))
 	case *types.Pointer:
@@ -986,26 +997,49 @@ func (f *FnEnc) evalClause(expr *SX, env map[string]string) string {
 }
 
 func (f *FnEnc) evalClauseSt(expr *SX, env map[string]string, cur, old *State) string {
-	at := exprAtoms(expr)
 	if un := f.e.unresolved(expr, env); len(un) > 0 {
 		// the clause names a local that does not exist (any more): it cannot be established
 		f.unresolvedNote = append(f.unresolvedNote, fmt.Sprintf("clause refers to unknown name(s) %v", un))
 		return "false"
 	}
-	env2 := env
-	if at["H"] || at["H0"] {
-		env2 = make(map[string]string, len(env)+2)
-		for k, v := range env {
-			env2[k] = v
+	return f.evalWithStates(expr, env, map[string]*State{"H": cur, "H0": old})
+}
+
+// evalWithStates substitutes env, inlines macros down to component symbols for the heap states
+// named in hs (H, H0), and materialises a Heap value only where a state is used as a value.
+func (f *FnEnc) evalWithStates(expr *SX, env map[string]string, hs map[string]*State) string {
+	states := map[string]*State{}
+	env2 := make(map[string]string, len(env)+2)
+	for k, v := range env {
+		env2[k] = v
+	}
+	for name, st := range hs {
+		if st == nil {
+			continue
 		}
-		if at["H"] && env["H"] == "@H" {
-			env2["H"] = f.heapTerm(cur)
+		if v, ok := env[name]; ok && !strings.HasPrefix(v, "@") {
+			continue // already a concrete heap term
 		}
-		if at["H0"] && env["H0"] == "@H0" {
-			env2["H0"] = f.heapTerm(old)
+		f.nsym++
+		marker := fmt.Sprintf("@state%d", f.nsym)
+		states[marker] = st
+		env2[name] = marker
+	}
+	x := expr.subst(env2)
+	x = f.expandStates(x, states)
+	// remaining markers are first-class heap values
+	rest := map[string]bool{}
+	x.atoms(rest)
+	mat := map[string]string{}
+	for a := range rest {
+		if st, ok := states[a]; ok {
+			mat[a] = f.heapTerm(st)
 		}
 	}
-	return f.e.strLitSubst(expr.subst(env2).String())
+	if len(mat) > 0 {
+		x = x.subst(mat)
+	}
+	return f.e.strLitSubst(x.String())
 }
 
 // heapWF returns, for heap component n holding term c, the fact that no stored pointer, slice or
